@@ -76,7 +76,13 @@ type schedCase struct {
 	Exact []vsched.Preempt `json:"exact,omitempty"`
 }
 
-var interestingWords = []string{"os.", ".Lock(", ".RLock(", ".Unlock(", ".RUnlock(", "Fprintf", ".Write", ".Truncate", ".Seek", ".Scan()", "getPrevSnapshot(", "addNewSnapshot(", "updateSnapshot(", "overwriteFile(", "upsertStandaloneSnapshot(", "getTestID(", "register("}
+// values larger than the usual buffer sizes (4096, 8192): an entry that a buffered writer would emit in several writes
+var (
+	schedBig1 = strings.Repeat("0123456789abcde\n", 300)                   // 4800 bytes, many lines
+	schedBig2 = "head\n" + strings.Repeat("y", 9000) + "\ntail\n---\nend" // one line beyond 8192 and a terminator look-alike
+)
+
+var interestingWords = []string{".Flush(", ".Sync(", ".Close(", ".ReadFrom(", "io.Copy", "os.", ".Lock(", ".RLock(", ".Unlock(", ".RUnlock(", "Fprintf", ".Write", ".Truncate", ".Seek", ".Scan()", "getPrevSnapshot(", "addNewSnapshot(", "updateSnapshot(", "overwriteFile(", "upsertStandaloneSnapshot(", "getTestID(", "register("}
 
 var srcLines = map[string][]string{}
 
@@ -323,9 +329,9 @@ func genSchedScenario(t *rapid.T) schedCase {
 	c := schedCase{}
 	n := rapid.IntRange(2, 4).Draw(t, "ntests")
 	names := genNamePool(t, n+1)
-	vals := []string{"v1", "v2", "a longer value\nwith lines", "", "x", "three\nline\nvalue", "l1\nl2\nl3\nl4"}
+	vals := []string{"v1", "v2", "a longer value\nwith lines", "", "x", "three\nline\nvalue", "l1\nl2\nl3\nl4", schedBig1, schedBig2}
 	for i := rapid.IntRange(0, 2).Draw(t, "nforeign"); i > 0; i-- {
-		c.Foreign = append(c.Foreign, Entry{ID: BS(entryID(names[n], i)), Body: BS(rapid.SampledFrom(vals).Draw(t, "fbody"))})
+		c.Foreign = append(c.Foreign, Entry{ID: BS(entryID(names[n], i)), Body: BS(refEscape(rapid.SampledFrom(vals).Draw(t, "fbody")))})
 	}
 	shape := rapid.IntRange(0, 4).Draw(t, "shape")
 	for i := 0; i < n; i++ {
@@ -399,6 +405,14 @@ func classifySched(c schedCase) ([]string, bool) {
 			}
 		}
 	}
+	for _, t := range c.Tests {
+		for _, call := range t.Calls {
+			if len(call.Val) > 4096 {
+				cls = append(cls, "entry_larger_than_4096_bytes")
+				break
+			}
+		}
+	}
 	return cls, len(c.Preempts)+len(c.Exact) >= 1 && writers >= 2
 }
 
@@ -420,6 +434,66 @@ var exhaustiveScenarios = []schedCase{
 	{Tests: []schedTest{
 		{Name: "TestA", Calls: []schedCall{{Kind: "update", Val: "new", Old: "old"}}},
 		{Name: "TestB", Calls: []schedCall{{Kind: "match", Val: "same"}, {Kind: "mismatch", Val: "x", Old: "y"}}}}},
+}
+
+// scenarios enumerated with every single preemption (both tiers) and every pair (thorough): entries beyond buffer sizes
+var exhaustiveBigScenarios = []schedCase{
+	{Foreign: []Entry{{ID: "TestC - 1", Body: "keep"}}, Tests: []schedTest{
+		{Name: "TestA", Calls: []schedCall{{Kind: "create", Val: BS(schedBig1)}}},
+		{Name: "TestB", Calls: []schedCall{{Kind: "create", Val: "bval"}}}}},
+	{Tests: []schedTest{
+		{Name: "TestA", Calls: []schedCall{{Kind: "update", Val: BS(schedBig2), Old: "old"}}},
+		{Name: "TestB", Calls: []schedCall{{Kind: "create", Val: BS(schedBig1)}}}}},
+}
+
+func TestC06_ExhaustiveBig(t *testing.T) {
+	nshards, _ := strconv.Atoi(getenv("VERIF_NSHARDS", "1"))
+	shard, _ := strconv.Atoi(getenv("VERIF_SHARD", "0"))
+	p := prop[schedCase]{property: "C06", check: checkSched, classify: classifySched}
+	p.enumerate(t, func(yield func(schedCase) bool) {
+		idx := 0
+		for _, base := range exhaustiveBigScenarios {
+			for first := range base.Tests {
+				sc := base
+				sc.Order = []int{first}
+				dry, _ := runSched(sc, nil, true)
+				type pos struct{ g, k int }
+				var all []pos
+				for g, sites := range dry.sess.Sites {
+					for k := 1; k <= len(sites)+3; k++ {
+						all = append(all, pos{g, k})
+					}
+				}
+				for _, a := range all {
+					idx++
+					if idx%nshards != shard {
+						continue
+					}
+					c := sc
+					c.Exact = []vsched.Preempt{{G: a.g, K: a.k}}
+					if !yield(c) {
+						return
+					}
+				}
+				if !tierThorough() {
+					continue
+				}
+				for i := 0; i < len(all); i++ {
+					for j := i + 1; j < len(all); j++ {
+						idx++
+						if idx%nshards != shard {
+							continue
+						}
+						c := sc
+						c.Exact = []vsched.Preempt{{G: all[i].g, K: all[i].k}, {G: all[j].g, K: all[j].k}}
+						if !yield(c) {
+							return
+						}
+					}
+				}
+			}
+		}
+	})
 }
 
 func TestC06_Exhaustive2(t *testing.T) {
